@@ -6,6 +6,7 @@ import (
 	"encoding/hex"
 	"encoding/json"
 	"fmt"
+	"google.golang.org/protobuf/encoding/protowire"
 	"os"
 	"os/exec"
 	"path/filepath"
@@ -138,6 +139,16 @@ func runC19(seed int64, n int, dir string, tier string) *Report {
 						}
 					}
 				}
+			}
+			if g.Chance(0.3) {
+				// fields a newer schema would define (kept by the protobuf runtime as unknown fields): part of the document
+				unk := protowire.AppendVarint(protowire.AppendTag(nil, protowire.Number(1000+g.Int(50)), protowire.VarintType), uint64(1+g.Int(1000)))
+				unk = protowire.AppendString(protowire.AppendTag(unk, protowire.Number(1100+g.Int(50)), protowire.BytesType), "from-a-newer-release")
+				d.ProtoReflect().SetUnknown(unk)
+				if d.NodeList != nil && len(d.NodeList.Nodes) > 0 && g.Chance(0.7) {
+					d.NodeList.Nodes[g.Int(len(d.NodeList.Nodes))].ProtoReflect().SetUnknown(unk)
+				}
+				rep.Count("doc=with-unknown-fields")
 			}
 			hasMD := true
 			if k == nd-1 && g.Chance(0.3) {
